@@ -13,12 +13,13 @@ import (
 )
 
 // Sigma is the symbol alphabet: every Hprose serialisation tag, the marks, four digits, one byte that is no
-// tag at all, a UTF-8 lead byte with one of its trail bytes, and 0xFF.
+// tag at all, a 3-byte UTF-8 lead byte with one of its trail bytes, a 4-byte lead byte with a trail byte, and 0xFF.
 var Sigma = []byte{
 	'0', '1', '2', '9',
 	'i', 'l', 'd', 'N', 'I', 'n', 'e', 't', 'f', 'D', 'T', 'b', 'u', 's', 'g', 'a', 'm', 'c', 'o', 'r', 'E',
 	';', '"', '{', '}', '-', '+', '.', 'Z',
 	'x', 0xE4, 0xBD, 0xFF,
+	0xF0, 0x9F, // lead byte of a 4-byte character (counts two UTF-16 units) and a trail byte of it
 }
 
 // SigmaIns is the reduced insertion alphabet of the quick tier.
@@ -254,7 +255,8 @@ func NumValues(cur string) []string {
 	if ok {
 		vals = append(vals, itoa(n-1), itoa(n+1))
 	}
-	vals = append(vals, "2147483647", "2147483648", "9223372036854775807", "100000000000", "10000000000000000000", "-1")
+	vals = append(vals, "2147483647", "2147483648", "9223372036854775807", "100000000000", "10000000000000000000", "-1",
+		"3074457345618258603", "6148914691236517206") // 2^63/3 and 2^64/3 rounded up: a length that overflows when tripled
 	seen := map[string]bool{cur: true}
 	var out []string
 	for _, v := range vals {
